@@ -600,7 +600,12 @@ _PRINTABLE = [chr(c) for c in range(32, 127)] + ['\n', '\r']
 
 
 def rand_header(rng):
-    k = rng.randrange(9)
+    k = rng.randrange(10)
+    if k == 9:   # the other ASCII control characters (VT, FF, FS, GS, RS, US, NUL, DEL ...): ordinary header text, NOT line
+        #          breaks of the format - whatever follows them on the line stays behind the line's '#'
+        ctl = rng.choice('\x0b\x0c\x1c\x1d\x1e\x1f\x00\x7f\x01\x08\x1b')
+        return rng.choice([f'page 1{ctl}1.5 2.5 3.5', f'a{ctl}1 2 3', f'{ctl}1 2 3', f'x{ctl}{ctl}7 8 9\nnext{ctl}', ctl,
+                           f'run{ctl}\n4 5 6{ctl}7 8 9', f'{ctl}#{ctl}\r1 2 3'])
     if k == 0:
         return ''.join(rng.choice(_PRINTABLE) for _ in range(rng.randrange(0, 60)))
     if k == 1:   # lines that look like table rows
@@ -635,7 +640,7 @@ def _writable_cfg(rng, n):
 
 def run(ctx):
     ctx.rule = RULE
-    ctx.assume('headers are printable ASCII + TAB + LF + CR (no other control characters); CR counts as a line break (universal newlines); any exception of save_xye counts as refusal')
+    ctx.assume('headers are ASCII (printable, TAB, LF, CR and the other control characters); LF and CR count as line breaks (universal newlines), no other character does; any exception of save_xye counts as refusal')
     ctx.assume('"a few units in the last place" = 4 ulp of the supplied variance (DESIGN 3.2); supplied variances are '
                'finite, >= 0 and pairwise more than 16 ulp apart, X / Y values pairwise distinct bit patterns, so the '
                'mapping double -> value-id is unambiguous')
